@@ -85,14 +85,14 @@ func HarnessC03Progress(n, size, api, kind int) {
 		dmx = NewDemuxer(vCtx{}, r)
 	}
 	// F12 region: exactly the inputs on which packet-size auto-detection fails: no input, first byte not a sync byte, no
-	// second sync byte at offsets 188..192 inside the input, or (bufio: Peek needs the whole 193-byte window) a short input
+	// second sync byte at offsets 188..192 inside the input
 	f12 := false
 	if size == 0 {
 		second := false
 		for idx := 188; idx < 193 && idx < n; idx++ {
 			second = second || data[idx] == 0x47
 		}
-		f12 = n == 0 || data[0] != 0x47 || !second || (kind == 2 && n < 193)
+		f12 = n == 0 || data[0] != 0x47 || !second
 	}
 	bound := n/stride + 4
 	ended := false
